@@ -229,6 +229,12 @@ def all_variants():
                 add("merge_ok", "ok")
     for nrg in (1, 2):
         out.append(dict(state="drill1", nrg=nrg, kind="append_to_drill", expect="validation"))
+    # CONFIRMATION STREAM of two open findings (findings.d/C18.json): operations refused at encode time that have no way back
+    for st in STATES:
+        for kind in ("replace_bad_value", "replace_none_nonnull", "replace_codec"):
+            out.append(dict(state=st, nrg=2, kind=kind, expect="late", pos="middle", rg="later"))
+    for st in ("hive", "part1"):
+        out.append(dict(state=st, nrg=2, kind="bad_value_no_summary", expect="late", pos="middle", rg="later"))
     # existing datasets with 11..13 part files (part ids of one AND two digits): a refused append must not touch any of them
     for st in ("hive", "part1", "part2"):
         for nrg in (11, 12, 13):
@@ -253,6 +259,7 @@ def _lattice():
 
 
 OPTION_LATTICE = _lattice()
+FINDING_KINDS = {"replace_bad_value", "replace_none_nonnull", "replace_codec", "bad_value_no_summary"}
 IO_POSITIONS = ["first_write", "middle_write", "footer_thrift", "footer_length", "footer_magic"]
 
 
@@ -262,6 +269,9 @@ def build(v, rng, sid):
     kind = v["kind"]
     if kind.endswith("_many_parts"):
         kind = kind[:-len("_many_parts")]
+    replace_write = kind.startswith("replace_")
+    no_summary = kind == "bad_value_no_summary"
+    kind = {"replace_bad_value": "bad_value", "replace_none_nonnull": "none_nonnull", "replace_codec": "codec_all", "bad_value_no_summary": "bad_value"}.get(kind, kind)
     pos = v.get("pos", rng.choice(["first", "middle", "last"]))
     target = "s" if kind == "none_nonnull" else "b"
     order = ORDERS[pos][target]
@@ -421,6 +431,9 @@ def build(v, rng, sid):
     if st != "drill1" and rng.random() < 0.3:      # the existing dataset has already been appended to once
         m = rng.choice([1, 2, 4])
         prior = {"frame": gen_frame(order, st, m, rng), "offsets": offsets(m, min(m, rng.choice([1, 2])))}
+    if replace_write:
+        # an ordinary (non-append) write of the offending frame onto the existing dataset, with the options the dataset was written with
+        kw = dict(kw, append=False, object_encoding={"b": "int", "s": "utf8"}, has_nulls=False)
     oe0 = None
     if kind in ("na_nonnull", "sentinel_ok"):
         # column b of the existing dataset has the numpy counterpart of the family (REQUIRED: has_nulls=False); the appended frame
@@ -448,7 +461,7 @@ def build(v, rng, sid):
             col[1], col[2] = dt, vals(len(col[2]))
         [f for f in frame1 if f[0] == "b"][0][2][bad_rows[0]] = float("nan") if (fam == base and base.startswith("float")) else None
         oe0 = {"b": "utf8", "s": "utf8"} if fam == "string" else None
-    return {"object_encoding0": oe0,"id": sid, "variant": v, "scheme": scheme, "partition_on": list(pon), "frame0": frame0, "offsets0": off0, "prior": prior,
+    return {"drop_summary": no_summary, "object_encoding0": oe0,"id": sid, "variant": v, "scheme": scheme, "partition_on": list(pon), "frame0": frame0, "offsets0": off0, "prior": prior,
             "compression0": rng.choice([None, None, "GZIP"]),
             "api": api, "kwargs": kw, "frame1": frame1, "bad_rows": bad_rows}
 
@@ -618,6 +631,9 @@ def run_scenario(arg):
         pristine = os.path.join(base, "p", "ds")
         try:
             create(pristine, sc)
+            if sc.get("drop_summary"):
+                os.remove(os.path.join(pristine, dsfs.MD))
+                os.remove(os.path.join(pristine, dsfs.CMD))
             pf0 = ParquetFile(pristine)
             old_vals = dsfs.values(pf0.to_pandas())
             want = len(sc["frame0"][0][2]) + (len(sc["prior"]["frame"][0][2]) if sc.get("prior") else 0)
@@ -701,7 +717,8 @@ def run_scenario(arg):
                     # and _sort_part_names cannot rename (observation recorded in notes/C09.md); the audit hook records the calls
                     write(work, L.to_df(sc["frame1"]), **sc["kwargs"])
                 else:
-                    write(work, L.to_df(sc["frame1"]), open_with=rec.open_with, mkdirs=rec.mkdirs, **sc["kwargs"])
+                    write(work, L.to_df(sc["frame1"]), open_with=(dsfs.rec_fs(rec).open if sc.get("drop_summary") else rec.open_with),
+                          mkdirs=rec.mkdirs, **sc["kwargs"])
             except BaseException as e:       # noqa
                 raised = "%s: %s" % (type(e).__name__, str(e)[:160].replace("\n", " "))
         snap1 = dsfs.snapshot(root)
@@ -867,6 +884,9 @@ def run(ctx):
         cmds.append(("verdict", res["request"], res["dset"]))
         meta.append(("verdict", short, res, sc))
         tr_nodata = dsfs.sx_trace([(c[0], c[1], b"") if c[0] == "write" else c for c in res["trace"]])
+        if v["kind"] in FINDING_KINDS:
+            ctx.count("confirmation_stream", "%s/%s: %s" % (v["kind"], v["state"], "reproduced" if judge(sc, res) else "dataset intact"))
+            continue                     # (no rollback exists for these: the proved trace relations are not claimed for them)
         if v["expect"] == "validation":
             cmds.append(("no_write", tr_nodata))
             meta.append(("no_write", short, res, sc))
